@@ -49,17 +49,29 @@ func c02Frame(r *Rng, peer net.IP, known bool) ([]byte, string) {
 	case 2: // IPv4 header field boundaries
 		seg := tcpSegment(peer, dst, sport, dport, r.Uint32(), 0, tcpSYN, 1024, nil, nil)
 		pkt := ipv4Packet(peer, dst, []byte{1, 2, 6, 17, 47, 255}[r.Intn(6)], 1, seg)
-		switch r.Intn(5) {
-		case 0:
-			pkt[0] = 0x40 | byte(r.Intn(16)) // IHL 0..15
-		case 1:
-			binary.BigEndian.PutUint16(pkt[2:], uint16([]int{0, 1, 19, 20, 21, 39, len(pkt) - 1, len(pkt) + 1, 1500, 65535}[r.Intn(10)]))
-		case 2:
-			pkt[0] = byte(r.Intn(16))<<4 | 5 // version
-		case 3:
-			pkt = pkt[:r.Range(0, len(pkt))] // truncated
-		default:
-			binary.BigEndian.PutUint16(pkt[6:], uint16(r.Intn(65536))) // flags/fragment offset
+		// one to three of the header fields are off at the same time (self-inconsistent headers)
+		full := len(pkt)
+		for k := r.Range(1, 3); k > 0; k-- {
+			switch r.Intn(5) {
+			case 0:
+				if len(pkt) > 0 {
+					pkt[0] = pkt[0]&0xf0 | byte(r.Intn(16)) // IHL 0..15
+				}
+			case 1:
+				if len(pkt) > 3 {
+					binary.BigEndian.PutUint16(pkt[2:], uint16([]int{0, 1, 4, 15, 16, 19, 20, 21, 39, full - 1, full + 1, 1500, 65535}[r.Intn(13)]))
+				}
+			case 2:
+				if len(pkt) > 0 {
+					pkt[0] = byte(r.Intn(16))<<4 | pkt[0]&0x0f // version
+				}
+			case 3:
+				pkt = pkt[:r.Range(0, len(pkt))] // truncated
+			default:
+				if len(pkt) > 7 {
+					binary.BigEndian.PutUint16(pkt[6:], uint16(r.Intn(65536))) // flags/fragment offset
+				}
+			}
 		}
 		return ethFrame(sensorMAC, srcMAC, 0x0800, pkt), "ipv4-fields"
 	case 3, 4: // TCP data offset and options
@@ -183,7 +195,7 @@ func genC02(seed uint64, idx int, tier string) *Scenario {
 		// history: flood of half-open connections around the state table size
 		n := []int{1000, 65000, 65535, 65536, 70000}[r.Intn(5)]
 		if tier != "thorough" {
-			n = []int{1000, 65536}[r.Intn(2)]
+			n = []int{1000, 65600}[r.Intn(2)]
 		}
 		gap := []int64{0, 0, 31000}[r.Intn(3)]
 		a.Ops = append(a.Ops, Op{K: "synflood", Ms: int64(n), Note: peer.String()})
@@ -344,7 +356,7 @@ func runC02(t *testing.T, sc *Scenario) Result {
 				for i := 0; i < n; i++ {
 					// distinct 4-tuples: vary source port and the low address byte
 					src := net.IPv4(ip[0], ip[1], ip[2], byte(2+i/60000)).To4()
-					seg := tcpSegment(src, sensorRaw, uint16(1024+i%60000), uint16(1+i%1000), uint32(i), 0, tcpSYN, 1024, nil, nil)
+					seg := tcpSegment(src, sensorRaw, uint16(1024+i%60000), uint16(1024+i%1000), uint32(i), 0, tcpSYN, 1024, nil, nil)
 					sys.Inject(ethFrame(sensorMAC, peerMAC(ip), 0x0800, ipv4Packet(src, sensorRaw, 6, uint16(i), seg)))
 					frames++
 					if i%512 == 511 {
